@@ -145,10 +145,7 @@ def units(tier, seed):
                 chunk = []
         if chunk:
             us.append(('product', product, chunk))
-    # keyword-named property keys etc. are only expressible double-quoted; the renderer writes plain words bare,
-    # so they are outside the DBML-expressible domain of an API-built database (DESIGN §2)
-    cases = [(pos, name) for pos in c01.POSITIONS for name in c01.IDENTS
-             if (pos, name) not in c01.IDENT_EXCLUDED and (pos, name.lower()) not in c01.BARE_EXCLUDED]
+    cases = [(pos, name) for pos in c01.POSITIONS for name in c01.IDENTS if (pos, name) not in c01.IDENT_EXCLUDED]
     for k in range(0, len(cases), 30):
         us.append(('idents', cases[k:k + 30]))
     if tier != 'quick':
